@@ -53,6 +53,8 @@ def _account_stream(stats, plan, tr):
         stats.probe('mode_' + plan['knobs']['mode'])
         if plan['knobs'].get('filter'):
             stats.probe('filtered_streams')
+        if plan['knobs'].get('kin'):
+            stats.probe('filtered_streams_of_messages_with_identical_sections_1_to_3')
         if plan.get('sub') == 'big':
             size = len(lay['stream'])
             stats.probe('long_streams')
@@ -304,7 +306,7 @@ def c13(tier):
         'through the alias root}; a case is one history; distinct = (family, limit, client configs, op-kind '
         'sequence); non-trivial = an eviction, failed operation, fired I/O fault or restart occurred',
         ASSUME_HIST, _account_hist, extra_cov=_extra_hist,
-        pool_kwargs=HIST_POOL_THOROUGH if tier == 'thorough' else dict(HIST_POOL, n_ops=70, n_tabled=20), design_ref='5.2')
+        pool_kwargs=HIST_POOL_THOROUGH if tier == 'thorough' else dict(HIST_POOL, n_ops=50, n_tabled=20), design_ref='5.2')
 
 
 def c08(tier):
